@@ -103,14 +103,24 @@ Proof. exact pool_pending_progress_lemma. Qed.
 Print Assumptions pool_pending_job_can_progress.
 
 (* Every failure (error or panic) of a job that ran is in the error returned by Wait or was passed to the
-   handler, and nothing else is reported. *)
+   handler, and nothing else is reported - PROVIDED the failure is not a control-valued error (one that is or
+   wraps io.EOF, context.Canceled, context.DeadlineExceeded or ErrIteratorSkip) returned by a job of the
+   plain WorkerPool: ProcessParallel consumes those as signals (known finding
+   C11:WorkerPool:control-error-dropped).  The HandlerWorkerPool hands them to the observer like any error. *)
 Theorem pool_job_errors_surfaced :
   forall (cf : Pool.conf) (oc : nat -> outcome) (s : Pool.st), Pool.reach cf oc s ->
     forall w h s', Pool.step cf oc s (Pool.EWaitRet w h) = Some s' ->
-      (forall j, In j (Pool.finished s) -> fails (oc j) = true -> In j w \/ In j h) /\
+      (forall j, In j (Pool.finished s) -> fails (oc j) = true ->
+         is_ctl (oc j) = false \/ Pool.handler cf = true -> In j w \/ In j h) /\
       (forall j, In j w \/ In j h -> fails (oc j) = true /\ Pool.ran s j = 1).
 Proof. exact pool_job_errors_surfaced_lemma. Qed.
 Print Assumptions pool_job_errors_surfaced.
+
+(* ... and without that proviso the statement is false of the code-level model: a plain WorkerPool, even with
+   ContinueOnError and ContinueOnPanic, whose job returns io.EOF stops and reports the error nowhere. *)
+Theorem pool_job_errors_surfaced_refuted : ~ pool_job_errors_surfaced_statement.
+Proof. exact pool_job_errors_surfaced_refuted_lemma. Qed.
+Print Assumptions pool_job_errors_surfaced_refuted.
 
 (* Cleanup: a function runs at most once, only if it was accepted and only after the service was shut down;
    when the service's Wait returns every accepted function has run exactly once.
